@@ -10,6 +10,7 @@ import SocVerif.Driver.BridgeD
 import SocVerif.Driver.BuilderD
 import SocVerif.Driver.DecD
 import SocVerif.Driver.CsrMonD
+import SocVerif.Driver.GpioD
 
 def main (args : List String) : IO UInt32 := do
   match args with
@@ -27,4 +28,5 @@ def main (args : List String) : IO UInt32 := do
   | ["csrdec"] => DecD.mainCsr; return 0
   | ["wbdec"] => DecD.mainWb; return 0
   | ["csrmon"] => CsrMonD.main; return 0
+  | ["gpio"] => GpioD.main; return 0
   | _ => IO.eprintln "usage: driver <mux|mmap|...>"; return 2
